@@ -34,6 +34,7 @@ def semantic_hooks():
         "atsim.potentials._util:gradient": grad,
         "spec.writers:D": grad,
         "spec.writers:ANY": lambda i, fv, a, k, n: Opaque(("any",)),
+        "spec.writers:WS": lambda i, fv, a, k, n: StrV(SOptWS()),
     }
 
 
@@ -68,7 +69,39 @@ def nsym(name):
 
 
 def out_tree(buf):
-    return normalize_chunks(SCat(list(buf.pieces)))
+    return normalize_optws(normalize_chunks(SCat(list(buf.pieces))))
+
+
+def _unknown_cond(c):
+    return "unknown" in repr(c.key()) or "carried" in repr(c.key())
+
+
+def _ws_only(n):
+    return all(isinstance(p, (SLit, SOptWS)) and (isinstance(p, SOptWS) or p.text.strip() == "") for p in parts_of(n))
+
+
+def normalize_optws(node):
+    """line wrapping driven by a counter the analysis does not track: ALT[unknown ? whitespace : whitespace] -> WS?;
+    consecutive WS? collapse"""
+    node = flatten(node)
+    if isinstance(node, SAlt):
+        a, b = normalize_optws(node.a), normalize_optws(node.b)
+        if _unknown_cond(node.cond) and _ws_only(a) and _ws_only(b):
+            return SOptWS()
+        return SAlt(node.cond, a, b)
+    if isinstance(node, SCat):
+        out = []
+        for p in node.parts:
+            q = normalize_optws(p)
+            if isinstance(q, SOptWS) and out and isinstance(out[-1], SOptWS):
+                continue
+            out.append(q)
+        return SCat(out) if len(out) != 1 else out[0]
+    if isinstance(node, SRep):
+        return SRep(node.var, node.lo, node.hi, normalize_optws(node.body))
+    if isinstance(node, SSeqRep):
+        return SSeqRep(node.var, node.seq, normalize_optws(node.body))
+    return node
 
 
 def run_method(I, inst, meth, args, kwargs=None):
